@@ -144,7 +144,28 @@ pub const RULES: &[Rule] = &[
     Rule {
         name: "SinglePosFormat2.value_records-same-format",
         keys: &["coverage", "value_records"],
-        check: |o| all_same_format(o.get("value_records")?.as_array()?.iter()),
+        check: |o| {
+            let recs = o.get("value_records")?.as_array()?;
+            // zero-sized records (empty format) cannot be counted back from the data
+            if let Some(first) = recs.first() {
+                if value_record_format(first.as_object()?)? == 0 {
+                    return Some(false);
+                }
+            }
+            all_same_format(recs.iter())
+        },
+    },
+    Rule {
+        name: "PairPosFormat2.class2_records-zero-sized",
+        keys: &["class_def1", "class_def2", "class1_records"],
+        check: |o| {
+            let c1 = o.get("class1_records")?.as_array()?;
+            let first = c1.first().and_then(|r| r.get("class2_records")).and_then(|a| a.as_array()).and_then(|a| a.first());
+            let Some(first) = first else { return Some(true) };
+            let f1 = value_record_format(first.get("value_record1")?.as_object()?)?;
+            let f2 = value_record_format(first.get("value_record2")?.as_object()?)?;
+            Some(f1 != 0 || f2 != 0)
+        },
     },
     Rule {
         name: "MarkBasePosFormat1.mark_class_count~base_anchors",
